@@ -132,6 +132,8 @@ def _build_job(arg):
         return (bi, mode, extra, binary, exe, None)
     except GenError as e:
         return (bi, mode, extra, binary, None, str(e))
+    except CheckError as e:
+        return (bi, mode, extra, binary, None, "CHECKERROR " + str(e))
 
 
 def run_single(case, db, cfg, workdir, timeout=60):
@@ -266,7 +268,9 @@ def differential(rep, cases, dbs, configs, name, batch_size=150, timeout=120, de
         multi = sorted([b for b in builds if b[1] == "multi"], key=repr)
         results = pmap(_build_job, single) + [_build_job(b) for b in multi]   # multi-file builds are parallel inside
         for bi, mode, extra, binary, exe, err in results:
-            if exe is None:
+            if exe is None and err.startswith("CHECKERROR "):
+                rep.error(err)
+            elif exe is None:
                 # a generated program that souffle accepted but whose C++ does not build
                 rep.violation("compiled mode failed to build batch %d (%s): %s" % (bi, mode, err[-600:]),
                               {"kind": "dl-build", "program": print_program(merged[bi]), "mode": mode, "extra": list(extra), "error": err[-3000:]})
